@@ -11,18 +11,21 @@ import (
 type iuses struct{ W, H bool }
 
 type impFn struct {
-	p       *impPkg
-	fd      *ast.FuncDecl
-	name    string
-	recvTy  *ity
-	recv    string // receiver variable ("" = none); passed and returned by value
-	results []*ity
-	scopes  []map[string]*ity
-	declOrd []string // every variable ever declared, in order (deterministic parameter lists)
-	nonNil  map[string]bool
-	helpers []string
-	nloop   int
-	ncont   int
+	p          *impPkg
+	fd         *ast.FuncDecl
+	name       string
+	recvTy     *ity
+	evRecv     bool     // the "receiver" is the event list of a callback parameter
+	fuels      []string // explicit fuel parameters (loops without a recognised counting pattern)
+	usesNumCPU bool
+	recv       string // receiver variable ("" = none); passed and returned by value
+	results    []*ity
+	scopes     []map[string]*ity
+	declOrd    []string // every variable ever declared, in order (deterministic parameter lists)
+	nonNil     map[string]bool
+	helpers    []string
+	nloop      int
+	ncont      int
 }
 
 // continuation: statements still to run after the current list (k.call != "" : a cheap expression instead)
@@ -37,17 +40,19 @@ type kont struct {
 }
 
 type ictx struct {
-	ret    func(vals string) string // Lean expression of `return vals` (vals already tupled)
-	fall   func() string            // Lean expression of falling off the end of the outermost list (cheap)
-	inLoop bool
-	top    bool // the list is the function body itself (defer allowed)
-	uses   *iuses
+	ret       func(vals string) string // Lean expression of `return vals` (vals already tupled)
+	fall      func() string            // Lean expression of falling off the end of the outermost list (cheap)
+	inLoop    bool
+	brk       func() string // Lean expression of `break` (inside a for loop)
+	loopDepth int           // scope depth of the innermost loop body (closures may only capture variables declared there)
+	top       bool          // the list is the function body itself (defer allowed)
+	uses      *iuses
 }
 
 var leanReserved = map[string]bool{"end": true, "from": true, "at": true, "show": true, "then": true, "fun": true, "open": true, "by": true, "do": true, "in": true,
 	"have": true, "let": true, "match": true, "with": true, "if": true, "else": true, "def": true, "theorem": true, "where": true, "namespace": true, "section": true,
 	"instance": true, "structure": true, "class": true, "Type": true, "Prop": true, "Sort": true, "this": true, "W": true, "H": true, "rest_": true, "ret_": true,
-	"some": true, "none": true, "len": true, "copy": true, "index": true, "deref": true, "makeBytes": true, "bytesOfString": true}
+	"some": true, "none": true, "len": true, "copy": true, "index": true, "deref": true, "makeBytes": true, "bytesOfString": true, "numCPU": true, "fuel_": true}
 
 func lname(n string) string {
 	if leanReserved[n] {
@@ -345,11 +350,17 @@ func (f *impFn) binary(v *ast.BinaryExpr, c *ictx) (string, *ity) {
 		}
 		op := map[token.Token]string{token.LSS: "<", token.LEQ: "≤", token.GTR: ">", token.GEQ: "≥"}[v.Op]
 		return "decide (" + xs + " " + op + " " + ys + ")", tyBool
-	case token.ADD, token.SUB, token.MUL:
+	case token.ADD, token.SUB, token.MUL, token.QUO, token.REM:
 		xs, xt := f.expr(v.X, tyInt, c)
 		ys, yt := f.expr(v.Y, tyInt, c)
 		if xt.k != "int" || yt.k != "int" {
 			p.die(v, "%s on %v, %v", v.Op, xt, yt)
+		}
+		if v.Op == token.QUO { // Go truncates toward zero (division by zero panics: not modelled)
+			return "Int.tdiv " + parenImp(xs) + " " + parenImp(ys), tyInt
+		}
+		if v.Op == token.REM {
+			return "Int.tmod " + parenImp(xs) + " " + parenImp(ys), tyInt
 		}
 		return parenImp(xs) + " " + v.Op.String() + " " + parenImp(ys), tyInt
 	}
@@ -397,6 +408,11 @@ func (f *impFn) call(v *ast.CallExpr, want *ity, c *ictx) (string, *ity) {
 		p.die(v, "hash method %s in expression position", m)
 	}
 	switch exprText(v.Fun) {
+	case "runtime.NumCPU":
+		if len(v.Args) == 0 {
+			f.usesNumCPU = true
+			return "numCPU", tyInt
+		}
 	case "len":
 		xs, xt := f.expr(v.Args[0], nil, c)
 		if xt.k != "slice" && xt.k != "string" {
@@ -453,6 +469,11 @@ func (f *impFn) checkAddrOf(at *ast.UnaryExpr, x string, c *ictx) {
 	if c.inLoop {
 		f.p.die(at, "&%s inside a loop", x)
 	}
+	f.checkNotAssignedAfter(at, x)
+}
+
+// x must not be assigned by any statement that comes later in the function text
+func (f *impFn) checkNotAssignedAfter(at ast.Node, x string) {
 	root := func(e ast.Expr) string {
 		for {
 			switch v := e.(type) {
@@ -484,7 +505,7 @@ func (f *impFn) checkAddrOf(at *ast.UnaryExpr, x string, c *ictx) {
 		case *ast.AssignStmt:
 			for _, l := range s.Lhs {
 				if root(l) == x {
-					f.p.die(s, "%s is assigned after its address was taken (pointer-as-value abstraction would be unsound)", x)
+					f.p.die(s, "%s is assigned after its address was taken / after it was captured (value abstraction would be unsound)", x)
 				}
 			}
 		case *ast.IncDecStmt:
